@@ -143,7 +143,7 @@ func init() {
 	register(&Property{
 		ID:    "C04",
 		Level: "exploration",
-		Rule: "PRNG chains of 1-8 leaf commands (out / exit-code functions vf0..vf7 / err / stdin-tagging function vtg; in half of the chains some commands carry an argument sub-shell `${err tag}` whose stderr line shows whether the arguments of a skipped command were evaluated) joined by ; newline && || and | -> pipelines, run at top level and as a function body, compared with a reference interpreter of the normal run mode; " +
+		Rule: "PRNG chains of 1-8 leaf commands (out / exit-code functions vf0..vf7 / err / stdin-tagging function vtg; in half of the chains some commands carry an argument sub-shell `${err tag}` whose stderr line shows whether the arguments of a skipped command were evaluated) joined by ; newline && || and | -> pipelines, run at top level, as a function body and as a function called twice, compared with a reference interpreter of the normal run mode; " +
 			"a case in which a whole multi-stage pipeline is skipped by &&/|| is executed but not asserted (the statement is silent on what its later stages do); non-trivial = at least 2 operators and at least one && or ||; distinct by program text",
 		Assumptions: []string{"leaf commands out/err/return/<stdin>->set behave as documented (they are the observation channel)", "skipped multi-stage pipelines are not asserted"},
 		Check:       chainCheck("C04"),
@@ -160,7 +160,7 @@ func init() {
 				chainSubEffects = i%2 == 1
 				units := genChain(r, 8, true)
 				chainSubEffects = false
-				wrapper := []string{"plain", "function"}[r.Intn(2)]
+				wrapper := []string{"plain", "function", "function-twice"}[r.Intn(3)]
 				cases = append(cases, mkChainCase(fmt.Sprintf("c04-%d", i), "normal", wrapper, units))
 			}
 			x.RunAll(pool, cases)
@@ -170,7 +170,7 @@ func init() {
 	register(&Property{
 		ID:    "C05",
 		Level: "exploration",
-		Rule: "the same PRNG chains (1-8 commands, ; && || |) wrapped in try {}, trypipe {}, and functions starting with `runmode try|trypipe function`, compared with reference models of the two modes; " +
+		Rule: "the same PRNG chains (1-8 commands, ; && || |) wrapped in try {}, trypipe {}, and functions starting with `runmode try|trypipe function` (a quarter of those called twice in the same process), compared with reference models of the two modes; " +
 			"a case in which a multi-stage ||-alternative is skipped is executed but not asserted; non-trivial = the chain contains || or a command fails before the end; distinct by (wrapper, program text)",
 		Assumptions: []string{"leaf commands out/err/return/<stdin>->set behave as documented", "tryerr/trypipeerr are not part of the statement and are not generated"},
 		Check:       chainCheck("C05"),
@@ -181,9 +181,13 @@ func init() {
 			for i := 0; i < n; i++ {
 				r := x.Rng("chain", i)
 				units := genChain(r, 8, true)
-				for _, w := range []string{"try", "trypipe", "fn-try", "fn-trypipe"} {
+				ws := []string{"try", "trypipe", "fn-try", "fn-trypipe"}
+				if i%4 == 0 {
+					ws = append(ws, "fn-try-twice", "fn-trypipe-twice")
+				}
+				for _, w := range ws {
 					mode := "try"
-					if strings.HasSuffix(w, "trypipe") {
+					if strings.Contains(w, "trypipe") {
 						mode = "trypipe"
 					}
 					cases = append(cases, mkChainCase(fmt.Sprintf("c05-%d-%s", i, w), mode, w, units))
@@ -245,6 +249,14 @@ func mkChainCase(id, mode, wrapper string, units []Unit) *proto.Case {
 		block = chainPrelude + "function " + fname + " {\nrunmode try function\n" + body + "\n}\n" + fname
 	case "fn-trypipe":
 		block = chainPrelude + "function " + fname + " {\nrunmode trypipe function\n" + body + "\n}\n" + fname
+	case "function-twice", "fn-try-twice", "fn-trypipe-twice":
+		// the same function body executed twice in one process: the second run must behave like the first
+		rm := map[string]string{"function-twice": "", "fn-try-twice": "runmode try function\n", "fn-trypipe-twice": "runmode trypipe function\n"}[wrapper]
+		block = chainPrelude + "function " + fname + " {\n" + rm + body + "\n}\n" + fname + "\n" + fname
+		want.Stdout += want.Stdout
+		want.Stderr += want.Stderr
+		want.Ran *= 2
+		want.Skipped *= 2
 	}
 	exp, _ := json.Marshal(chainExpect{Mode: mode, Wrapper: wrapper, Units: units, Want: want, Body: body})
 	return &proto.Case{ID: id, Op: "prog", Block: block, Expect: exp, TimeoutMs: 30000}
